@@ -142,7 +142,7 @@ Lemma lcont_inv : forall L l1 l2 a c m sp,
   Inv (mkState L (l1 ++ (Ready m, sp) :: l2)) -> res_inv L l1 l2 (lcont a c m).
 Proof.
   intros L l1 l2 a c m sp H.
-  destruct c as [ow ok| | | | | |c'| |k| |k| |k| | | ]; try destruct c'; destruct m; cbn [lcont keep]; unfold callL, fc_entry;
+  destruct c as [ow ok| | | | | |c'| |k| |k| |k| | | | | | ]; try destruct c'; destruct m; cbn [lcont keep]; unfold callL, fc_entry;
     repeat match goal with
            | |- context [if ?x then _ else _] => destruct x
            end;
@@ -240,7 +240,7 @@ Qed.
 Lemma cm_lmode_newcm_same : forall old f m o, cm_lmode (newcm old f m o) f = m.
 Proof.
   intros. destruct m; cbn [newcm cm_lmode]; rewrite ?N.eqb_refl; try reflexivity.
-  destruct o as [| |[k|]| | |l w]; cbn [cm_lmode]; rewrite ?N.eqb_refl; try reflexivity.
+  destruct o as [| |[k|]| | |l w| | ]; cbn [cm_lmode]; rewrite ?N.eqb_refl; try reflexivity.
   destruct old; cbn [cm_lmode]; rewrite ?N.eqb_refl; try reflexivity.
   destruct (f0 =? f)%N; cbn [cm_lmode]; rewrite ?N.eqb_refl; reflexivity.
 Qed.
@@ -250,7 +250,7 @@ Proof.
   intros old f g m o D.
   assert (X : (f =? g)%N = false) by (destruct (N.eqb_spec f g); [contradiction | reflexivity]).
   destruct m; cbn [newcm cm_lmode]; rewrite ?X; try reflexivity.
-  destruct o as [| |[k|]| | |l w]; cbn [cm_lmode]; rewrite ?X; try reflexivity.
+  destruct o as [| |[k|]| | |l w| | ]; cbn [cm_lmode]; rewrite ?X; try reflexivity.
   destruct old; cbn [cm_lmode]; rewrite ?X; try reflexivity.
   destruct (f0 =? f)%N; cbn [cm_lmode]; rewrite ?X; reflexivity.
 Qed.
@@ -264,13 +264,12 @@ Lemma start_op_weights : forall sh m o sh' p' evs r c f,
   wt (tra f (mkT m p' c r)) = wt (Ready MIdle) /\ cr (tra f (mkT m p' c r)) = 0.
 Proof.
   intros sh m o sh' p' evs r c f Lg E.
-  destruct o; cbn [start_op] in E;
+  destruct m; destruct o; try discriminate Lg; cbn [start_op cm_anchor cm_app cm_last] in E;
     repeat match type of E with
            | context [if ?x then _ else _] => destruct x eqn:?
            | context [match first_free ?a ?b with _ => _ end] => destruct (first_free a b) eqn:?
            end;
     inversion E; subst; clear E;
-    destruct m; try discriminate Lg;
     cbn [pri tra tpc cm alock amode cm_lmode cm_anchor cm_app cm_last entry anchors putO set_owner wmode_of];
     repeat match goal with |- context [(?a =? ?b)%N] => destruct (N.eqb_spec a b) end;
     repeat split; try reflexivity; subst; try contradiction.
